@@ -151,6 +151,38 @@ def correspond(ctx, gen_ok):
             _one_case(ctx, locals(), bil, bil_dense, lin, lin_dense, fun, itp)
         except ValueError as e:      # S.exact_ints: the implementation returned a non-integer on integer tables
             ctx.fail(key + ':non-integer', f'stub computation is not exact: {e}'[:300], info)
+    # --- TrilinearForm on three different stub bases
+    from skfem.assembly import TrilinearForm
+    tri, trid = [], []
+    for c in range(ctx.n(14, 80)):
+        Nu, Nv, Nw = rng.randint(1, 3), rng.randint(1, 3), rng.randint(1, 3)
+        if c < 6:
+            Nu, Nv, Nw = rng.sample([1, 2, 3], 3)
+        nt, nq = rng.randint(0 if c % 8 == 7 else 1, 3), rng.randint(1, 2)
+        dx = S.random_dx(rng, nt, nq)
+        bs = [Stub(N, *S.random_tables(rng, N, nb, nt, nq, -2, 2), dx, nt, nq) for N, nb in
+              ((rng.randint(2, 4), Nu), (rng.randint(2, 5), Nv), (rng.randint(2, 4), Nw))]
+        wt = [[rng.randint(-2, 2) for _ in range(nq)] for _ in range(nt)]
+        wc = DiscreteField(np.array(wt, dtype=float).reshape(nt, nq))
+        k3 = [rng.randint(-2, 2) for _ in range(4)]
+        mode = c % 4                       # 0: three bases, 1: wbasis omitted, 2: only ubasis, 3: three bases
+        args = {0: bs, 1: bs[:2], 2: bs[:1], 3: bs}[mode]
+        info = {'Nu,Nv,Nw': (Nu, Nv, Nw), 'nt': nt, 'nq': nq, 'k': k3, 'w': wt, 'bases': [_tables(b) for b in args], 'case': c}
+        tform = TrilinearForm(S.py_form3(k3))
+        terms = [S.coq_basis(b.tables) for b in args]
+        opt = [f'(Some {t})' for t in terms[1:]] + ['None'] * (3 - len(terms))
+        inp = f'({clist([cz(x) for x in k3])}, (tab2 {S.cz2(wt)}), {terms[0]}, {opt[0]}, {opt[1]})'
+        ctx.hist('trilinear Nu,Nv,Nw', (Nu, Nv, Nw))
+        try:
+            res = _run(ctx, 'stub:trilinear', 'TrilinearForm._assemble on stub bases', info, lambda: tform._assemble(*args, c=wc))
+            if res is not None:
+                tri.append((inp, '(Some ' + _coo_term(res) + ')', ('tri', len({Nu, Nv, Nw}) == 3 and nt >= 2 and mode in (0, 3), info)))
+                T = _run(ctx, 'stub:trilinear-toarray', 'TrilinearForm.assemble(...).toarray()', info, lambda: tform.assemble(*args, c=wc).toarray())
+                if T is not None:
+                    trid.append((inp, '(Some ' + clist([clist([clist([cz(x) for x in S.exact_ints(r)]) for r in m]) for m in T]) + ')',
+                                 ('trid', True, info)))
+        except ValueError as e:
+            ctx.fail('stub:trilinear:non-integer', f'stub computation is not exact: {e}'[:300], info)
     # --- inputs the implementation rejects: the model must reject them too (None)
     for c in range(ctx.n(8, 30)):
         Nu, Nv, nq = rng.randint(1, 3), rng.randint(1, 3), rng.randint(1, 2)
@@ -194,6 +226,12 @@ Definition run_fun (c : list Z * (nat -> nat -> Z) * basis Z VZ) :=
 Definition run_itp (c : list Z * basis Z VZ) :=
   let '(wv, b) := c in
   map (fun e => map (fun q => interp Z 0%Z VZ vaddZ vscaleZ b (vecZ wv) e q) (seq 0 (bnq b))) (seq 0 (bnelems b)).
+Definition run_tri (c : list Z * (nat -> nat -> Z) * basis Z VZ * option (basis Z VZ) * option (basis Z VZ)) :=
+  let '(k, w, ub, vb, wb) := c in
+  match gen_trilinear_assemble Z 0%Z Z.add Z.mul VZ Z (form3 k) w ub vb wb with Some c => Some (coo_out c) | None => None end.
+Definition run_tri_dense (c : list Z * (nat -> nat -> Z) * basis Z VZ * option (basis Z VZ) * option (basis Z VZ)) :=
+  let '(k, w, ub, vb, wb) := c in
+  match gen_trilinear_assemble Z 0%Z Z.add Z.mul VZ Z (form3 k) w ub vb wb with Some c => gen_to_dense3 Z 0%Z Z.add c | None => None end.
 Definition zpair_eqb (a b : Z * Z) := Z.eqb (fst a) (fst b) && Z.eqb (snd a) (snd b).
 '''
     defs += '''
@@ -203,17 +241,21 @@ Inductive cin :=
 | CLin (c : list Z * (nat -> nat -> Z) * basis Z VZ)
 | CLinD (c : list Z * (nat -> nat -> Z) * basis Z VZ)
 | CFun (c : list Z * (nat -> nat -> Z) * basis Z VZ)
-| CItp (c : list Z * basis Z VZ).
+| CItp (c : list Z * basis Z VZ)
+| CTri (c : list Z * (nat -> nat -> Z) * basis Z VZ * option (basis Z VZ) * option (basis Z VZ))
+| CTriD (c : list Z * (nat -> nat -> Z) * basis Z VZ * option (basis Z VZ) * option (basis Z VZ)).
 Inductive cout :=
 | OCoo (o : option (list (list nat) * list Z * list nat))
 | ODense (o : option (list (list Z)))
 | OVec (o : option (list Z))
 | OFun (o : list Z * Z)
-| OItp (o : list (list (Z * Z))).
+| OItp (o : list (list (Z * Z)))
+| ODense3 (o : option (list (list (list Z)))).
 Definition run_any (c : cin) : cout :=
   match c with
   | CBil x => OCoo (run_bil x) | CBilD x => ODense (run_bil_dense x) | CLin x => OCoo (run_lin x)
   | CLinD x => OVec (run_lin_dense x) | CFun x => OFun (run_fun x) | CItp x => OItp (run_itp x)
+  | CTri x => OCoo (run_tri x) | CTriD x => ODense3 (run_tri_dense x)
   end.
 Definition cout_eqb (a b : cout) : bool :=
   match a, b with
@@ -222,12 +264,14 @@ Definition cout_eqb (a b : cout) : bool :=
   | OVec x, OVec y => option_eqb zs_eqb x y
   | OFun x, OFun y => pair_eqb zs_eqb Z.eqb x y
   | OItp x, OItp y => list_eqb (list_eqb zpair_eqb) x y
+  | ODense3 x, ODense3 y => option_eqb zsss_eqb x y
   | _, _ => false
   end.
 '''
     allc = ([(f'(CBil {i})', f'(OCoo {o})', r) for i, o, r in bil] + [(f'(CBilD {i})', f'(ODense {o})', r) for i, o, r in bil_dense]
             + [(f'(CLin {i})', f'(OCoo {o})', r) for i, o, r in lin] + [(f'(CLinD {i})', f'(OVec {o})', r) for i, o, r in lin_dense]
-            + [(f'(CFun {i})', f'(OFun {o})', r) for i, o, r in fun] + [(f'(CItp {i})', f'(OItp {o})', r) for i, o, r in itp])
+            + [(f'(CFun {i})', f'(OFun {o})', r) for i, o, r in fun] + [(f'(CItp {i})', f'(OItp {o})', r) for i, o, r in itp]
+            + [(f'(CTri {i})', f'(OCoo {o})', r) for i, o, r in tri] + [(f'(CTriD {i})', f'(ODense3 {o})', r) for i, o, r in trid])
     for r in allc:
         ctx.hist('stub correspondence kind', r[2][0])
     bad = ctx.corr('stub_assembly', S.COQ_IMPORTS, 'run_any', 'cout_eqb', allc, per_file=40, defs=defs, nontrivial=lambda r: r[1])
@@ -272,6 +316,42 @@ def param_kinds(ctx):
                 if a is not None and b is not None and not np.array_equal(np.broadcast_to(a, np.shape(b)), b):
                     ctx.fail(key + ':' + fname, f'{fname} form: a {name} keyword parameter does not enter like the '
                              'equivalent pre-interpolated field', dict(info, got=np.asarray(a).tolist(), expected=np.asarray(b).tolist()))
+        # user parameters NAMED like the defaults (x, h, n: a previous iterate, a thickness field, ...) override the defaults
+        # of the basis in all three form types; an unshadowed default stays visible
+        ub.defaults = {'x': DiscreteField(np.full((nt, nq), 7.0)), 'h': DiscreteField(np.full((nt, nq), 5.0)),
+                       'n': DiscreteField(np.full((nt, nq), 3.0))}
+        for nm in ('x', 'h', 'n'):
+            for fname, call in (('bilinear', lambda key, kw: BilinearForm(S.py_form2(k2, key))._assemble(ub, vb, **kw)[1]),
+                                ('linear', lambda key, kw: LinearForm(S.py_form1(k1, key))._assemble(ub, **kw)[1]),
+                                ('functional', lambda key, kw: Functional(S.py_form0(k0, key)).elemental(ub, **kw))):
+                fld = DiscreteField(arr)
+                got = _run(ctx, f'param-named:{nm}:{fname}', f'{fname} form with a user parameter named {nm}', info, lambda: call(nm, {nm: fld}))
+                exp = call('c', {'c': fld})
+                dflt = _run(ctx, f'param-named:{nm}:{fname}', f'{fname} form reading the default parameter {nm}', info, lambda: call(nm, {}))
+                dexp = call('c', {'c': ub.defaults[nm]})
+                ctx.count(('param-named', nm, fname, info), nontrivial=True)
+                if got is not None and not np.array_equal(got, exp):
+                    ctx.fail(f'param-named:{nm}:{fname}', f'{fname} form: a user keyword parameter named {nm!r} does not override the default '
+                             f'parameter of the basis (it must enter like any other parameter)',
+                             dict(info, name=nm, got=np.asarray(got).tolist(), expected=np.asarray(exp).tolist()))
+                if dflt is not None and not np.array_equal(dflt, dexp):
+                    ctx.fail(f'param-default:{nm}:{fname}', f'{fname} form: the default parameter {nm!r} of the basis is not passed to the form',
+                             dict(info, name=nm))
+        ub.defaults = {}
+        # Form.partial binds extra arguments of the integrand; decorator forms (Form()(f)) keep dtype / nthreads
+        def f4(u, v, w, alpha=1, beta=0):
+            return alpha * S.py_form2(k2)(u, v, w) + beta * u * v
+        wfield = DiscreteField(arr)
+        a = _run(ctx, 'form-partial', 'Form.partial', info, lambda: BilinearForm(f4).partial(alpha=3, beta=sc)._assemble(ub, vb, c=wfield)[1])
+        b = BilinearForm(lambda u, v, w: 3 * S.py_form2(k2)(u, v, w) + sc * u * v)._assemble(ub, vb, c=wfield)[1]
+        c2 = _run(ctx, 'form-decorator', 'Form()(f) decorator', info,
+                  lambda: BilinearForm(nthreads=2)(lambda u, v, w: 3 * S.py_form2(k2)(u, v, w) + sc * u * v)._assemble(ub, vb, c=wfield)[1])
+        ctx.count(('partial', info), nontrivial=True)
+        if a is not None and not np.array_equal(a, b):
+            ctx.fail('form-partial', 'Form.partial(alpha=..., beta=...) differs from the form with the arguments substituted',
+                     dict(info, got=np.asarray(a).tolist(), expected=b.tolist()))
+        if c2 is not None and not np.array_equal(c2, b):
+            ctx.fail('form-decorator', 'a form built by decoration differs from the directly constructed form', info)
         ctx.hist('param-kinds', 'vector/ndarray/scalar x bilinear/linear/functional')
 
 
